@@ -69,6 +69,14 @@ def parse_errors(stderr, emitted_lines, line_map, rs_name):
         for first, last, sel in line_map:
             if first <= line <= last:
                 selector = sel
+        if selector is None:
+            # the primary location is a contract stated in a trait (environment text): name the extracted item
+            # whose body the verifier points to in the same message (first gutter line inside an item span)
+            for g in re.findall(r"^\s*(\d+) \|", b, flags=re.M):
+                hit = [sel for first, last, sel in line_map if first <= int(g) <= last]
+                if hit:
+                    selector = hit[-1]
+                    break
         errs.append({
             "verification_error": is_verif,
             "msg": msg,
